@@ -65,6 +65,7 @@ class UnitResult:
         self.vacuity = None           # None | {'probes': n, 'fired': n, 'silent': [names]}
         self.wall_s = 0.0
         self.changed_items = []
+        self.incomplete_items = {}
         self.unweave = None
 
 
@@ -208,6 +209,7 @@ def _run_unit(unit_path, kf_on, vacuity, extra_args, timeout, keep, seed, isolat
         'kind': it.kind,
     } for it in unit.items]
     res.changed_items = [it.name for it in unit.items if it.changed]
+    res.incomplete_items = {it.name: list(it.lowering_incomplete) for it in unit.items if getattr(it, 'lowering_incomplete', None)}
     tmp = tempfile.mkdtemp(prefix='vf-%s-' % unit.name)
     try:
         suffix = ('_vac' if vacuity else '') + ('' if kf_on else '_strict')
